@@ -1,6 +1,7 @@
 package main
 
 import (
+	"hash/fnv"
 	"fmt"
 	"go/constant"
 	"go/token"
@@ -540,7 +541,18 @@ func (e *Enc) safety(fr *Frame, kind string, rb, cond Term, pos token.Pos) {
 	if kind == "safety.nil" && fr.top.contract != nil && fr.top.contract.NoNilChecks {
 		return
 	}
-	e.ob(fr, kind, e.nextName(fr, kind), rb, cond, kind, pos)
+	o := e.ob(fr, kind, e.nextName(fr, kind), rb, cond, kind, pos)
+	o.Watch = e.paramWatch(fr.top)
+	if pos.IsValid() {
+		// alias that survives insertions and deletions elsewhere in the function: hash of the source
+		// line's text plus the occurrence count of that (kind, text) in this function
+		p := e.w.fset.Position(pos)
+		h := fnv.New32a()
+		h.Write([]byte(strings.Join(strings.Fields(e.w.lineText(p.Filename, p.Line)), " ")))
+		key := fmt.Sprintf("%s@%08x", kind, h.Sum32())
+		fr.top.callN["alt:"+key]++
+		o.Alt = funcShort(fr.top.fn) + "/" + fmt.Sprintf("%s.%d", key, fr.top.callN["alt:"+key])
+	}
 }
 
 func (e *Enc) nilCheck(fr *Frame, p Val, rb Term, pos token.Pos) {
